@@ -340,6 +340,106 @@ Qed.
 Lemma ctype_neq_eqb t : ctype_eqb t TEnum = false -> t <> TEnum.
 Proof. intros H ->. discriminate. Qed.
 
+(* ------------------------------------------------------------------ ecolumn.toUpper, cell by cell *)
+
+Lemma find_value_nth : forall vs s i r, find_value vs s i = Some r ->
+  exists k, r = (i + N.of_nat k)%N /\ nth_error vs k = Some s.
+Proof.
+  induction vs as [|v vs IH]; intros s i r H; simpl in H; [discriminate|].
+  destruct (bytes_eqb v s) eqn:E.
+  - inversion H; subst. apply bytes_eqb_spec in E. subst. exists 0. split; [lia|reflexivity].
+  - destruct (IH s (i + 1)%N r H) as [k [Hr Hk]]. exists (S k). split; [lia|exact Hk].
+Qed.
+
+(* the merge loop: every old rank i is sent to a new rank whose value is the i-th upper-cased value *)
+Lemma up_fold_sem : forall ups nv o2n mg nv' o2n' mg',
+  fold_left up_step ups (nv, o2n, mg) = (nv', o2n', mg') ->
+  exists ext rs, nv' = nv ++ ext /\ o2n' = o2n ++ rs /\ length rs = length ups
+    /\ (forall i u, nth_error ups i = Some u ->
+          exists r, nth_error rs i = Some r /\ nth_error nv' (N.to_nat r) = Some u)
+    /\ (mg' = false -> mg = false /\ ext = ups).
+Proof.
+  induction ups as [|u ups IH]; intros nv o2n mg nv' o2n' mg' H.
+  - simpl in H. inversion H; subst. exists [], []. rewrite !app_nil_r. repeat split; auto.
+    intros i u Hi. destruct i; discriminate.
+  - simpl in H. destruct (find_value nv u 0) as [r|] eqn:E.
+    + destruct (IH _ _ _ _ _ _ H) as [ext [rs [H1 [H2 [H3 [H4 H5]]]]]].
+      exists ext, (r :: rs). split; [exact H1|]. split; [rewrite H2, <- app_assoc; reflexivity|].
+      split; [simpl; lia|]. split.
+      * intros [|i] u' Hi; simpl in Hi.
+        -- inversion Hi; subst u'. exists r. split; [reflexivity|].
+           destruct (find_value_nth _ _ _ _ E) as [k [Hr Hk]]. rewrite H1.
+           replace (N.to_nat r) with k by lia. rewrite nth_error_app1; [exact Hk|].
+           apply nth_error_Some. congruence.
+        -- apply (H4 i u' Hi).
+      * intro Hm. destruct (H5 Hm) as [Hd _]. discriminate.
+    + destruct (IH _ _ _ _ _ _ H) as [ext [rs [H1 [H2 [H3 [H4 H5]]]]]].
+      exists (u :: ext), (N.of_nat (length nv) :: rs).
+      split; [rewrite H1, <- app_assoc; reflexivity|]. split; [rewrite H2, <- app_assoc; reflexivity|].
+      split; [simpl; lia|]. split.
+      * intros [|i] u' Hi; simpl in Hi.
+        -- inversion Hi; subst u'. exists (N.of_nat (length nv)). split; [reflexivity|].
+           rewrite H1, <- app_assoc. rewrite Nat2N.id. rewrite nth_error_app2 by lia.
+           replace (length nv - length nv) with 0 by lia. reflexivity.
+        -- apply (H4 i u' Hi).
+      * intro Hm. destruct (H5 Hm) as [Hd He]. split; [exact Hd|]. rewrite He. reflexivity.
+Qed.
+
+(* the cell a row holds after ToUpper, as a function of the cell it held before *)
+Definition upcell (ut : upper_table) (x : cell) : outcome cell :=
+  match x with
+  | CStr None => Ok (CStr None)
+  | CStr (Some s) => do u <- upper_of ut s; Ok (CStr (Some u))
+  | CEnum None => Ok (CEnum None)
+  | CEnum (Some s) => do u <- upper_of ut s; Ok (CEnum (Some u))
+  | _ => Panic
+  end.
+
+Lemma e_upper_spec ut d values st n :
+  col_ok n (ECol d values st) -> upper_e_okb ut values = true ->
+  exists r0, e_to_upper ut d values = Ok r0 /\ col_type r0 = TEnum /\ col_ok n r0
+    /\ forall p x, cell_at (ECol d values st) p = Ok x ->
+         exists y, upcell ut x = Ok y /\ cell_at r0 p = Ok y.
+Proof.
+  intros Hok Hut. pose proof (e_to_upper_post ut d values st n Hok) as Hpost.
+  destruct (post_total _ _ _ Hpost Hut) as [r0 [Hr0 Hok0]]. exists r0. split; [exact Hr0|].
+  pose proof (upper_of_post ut values) as Hup. destruct (post_total _ _ _ Hup Hut) as [ups [Hups Hlen]].
+  unfold e_to_upper in Hr0. rewrite Hups in Hr0. cbn [obind] in Hr0.
+  change (fold_left _ ups ([], [], false)) with (fold_left up_step ups ([], [], false)) in Hr0.
+  destruct (fold_left up_step ups ([], [], false)) as [[nv o2n] mg] eqn:E.
+  destruct (up_fold_sem _ _ _ _ _ _ _ E) as [ext [rs [H1 [H2 [H3 [H4 H5]]]]]]. simpl in H1, H2. subst nv o2n.
+  assert (Hval : forall r s, nth_error values (N.to_nat r) = Some s ->
+                 exists u, upper_of ut s = Ok u /\ nth_error ups (N.to_nat r) = Some u).
+  { intros r s Hs. destruct (omap_nth _ _ _ _ _ Hups Hs) as [u [Hu1 Hu2]]. exists u. split; assumption. }
+  destruct mg.
+  - destruct (omap _ d) as [nd| |] eqn:End; cbn [obind] in Hr0; try discriminate. inversion Hr0; subst r0. clear Hr0.
+    split; [reflexivity|]. split; [exact Hok0|].
+    intros p x Hx. cbn [cell_at] in Hx |- *. unfold idx in *.
+    destruct (nth_error d p) as [r|] eqn:Ed; cbn [of_option obind] in Hx; [|discriminate].
+    destruct (omap_nth _ _ _ _ _ End Ed) as [r' [Hr'1 Hr'2]]. rewrite Hr'2. cbn [of_option obind].
+    unfold enum_string in *. destruct (enum_is_null r) eqn:En.
+    + inversion Hr'1; subst r'. rewrite En. cbn [obind] in Hx |- *. inversion Hx; subst x. exists (CEnum None). split; reflexivity.
+    + unfold idx in Hx, Hr'1. destruct (nth_error values (N.to_nat r)) as [s|] eqn:Es; cbn [of_option obind] in Hx; [|discriminate].
+      inversion Hx; subst x. destruct (Hval r s Es) as [u [Hu1 Hu2]]. destruct (H4 _ _ Hu2) as [r2 [Hr2 Hnv]].
+      rewrite Hr2 in Hr'1. cbn [of_option] in Hr'1. inversion Hr'1; subst r'.
+      assert (Hnn : enum_is_null r2 = false).
+      { unfold enum_is_null. apply N.eqb_neq. intro Hc. destruct Hok0 as [_ Hw]. cbn [col_wf] in Hw.
+        apply andb_true_iff in Hw as [_ Hcard]. apply Nat.leb_le in Hcard.
+        assert (N.to_nat r2 < length ext) by (apply nth_error_Some; congruence).
+        unfold GenConsts.c_nullValue, GenConsts.c_maxCardinality in *. lia. }
+      rewrite Hnn. unfold idx. rewrite Hnv. cbn [of_option obind]. exists (CEnum (Some u)). split; [|reflexivity].
+      cbn [upcell]. rewrite Hu1. reflexivity.
+  - destruct (H5 eq_refl) as [_ He]. subst ext. inversion Hr0; subst r0. clear Hr0.
+    split; [reflexivity|]. split; [exact Hok0|].
+    intros p x Hx. cbn [cell_at] in Hx |- *. unfold idx in *.
+    destruct (nth_error d p) as [r|] eqn:Ed; cbn [of_option obind] in Hx |- *; [|discriminate].
+    unfold enum_string in *. destruct (enum_is_null r) eqn:En; cbn [obind] in Hx |- *.
+    + inversion Hx; subst x. exists (CEnum None). split; reflexivity.
+    + unfold idx in Hx |- *. destruct (nth_error values (N.to_nat r)) as [s|] eqn:Es; cbn [of_option obind] in Hx; [|discriminate].
+      inversion Hx; subst x. destruct (Hval r s Es) as [u [Hu1 Hu2]]. rewrite Hu2. cbn [of_option obind].
+      exists (CEnum (Some u)). split; [|reflexivity]. cbn [upcell]. rewrite Hu1. reflexivity.
+Qed.
+
 Section Instr.
   Variable ut : upper_table.
   Variable L : pairs.
@@ -409,5 +509,180 @@ Section Instr.
       destruct (do cells <- scatter _ (ix f) vals; col_of_cells TString cells) as [r1| |],
                (do cells <- scatter _ (ix g) vals; col_of_cells TString cells) as [r2| |]; try contradiction; try exact I.
       destruct Hloop as [H1 [H2 [H3 _]]]. auto.
+  Qed.
+
+  (* ---- the built in ToUpper, enum columns *)
+  Lemma e_upper_sim f g d1 v1 s1 d2 v2 s2 :
+    col_ok (phys_len f) (ECol d1 v1 s1) -> col_ok (phys_len g) (ECol d2 v2 s2) ->
+    cells_sim L (ECol d1 v1 s1) (ECol d2 v2 s2) ->
+    upper_e_okb ut v1 = true -> upper_e_okb ut v2 = true ->
+    match e_to_upper ut d1 v1, e_to_upper ut d2 v2 with
+    | Ok r1, Ok r2 => col_sim L r1 r2 /\ col_ok (phys_len f) r1 /\ col_ok (phys_len g) r2
+    | _, _ => False
+    end.
+  Proof.
+    intros Ho1 Ho2 Hc Hu1 Hu2.
+    destruct (e_upper_spec ut d1 v1 s1 _ Ho1 Hu1) as [r1 [E1 [T1 [K1 C1]]]].
+    destruct (e_upper_spec ut d2 v2 s2 _ Ho2 Hu2) as [r2 [E2 [T2 [K2 C2]]]].
+    rewrite E1, E2. split; [split; [congruence|]|split; assumption].
+    intros p q Hpq. destruct (Hc p q Hpq) as [x [X1 X2]].
+    destruct (C1 p x X1) as [y [Y1 Y2]]. destruct (C2 q x X2) as [y' [Y1' Y2']].
+    exists y. split; [exact Y2|]. rewrite Y2'. congruence.
+  Qed.
+
+  Definition col_out (f g : frame) (o1 o2 : outcome coldata) : Prop :=
+    match o1, o2 with
+    | Ok r1, Ok r2 => col_sim L r1 r2 /\ col_ok (phys_len f) r1 /\ col_ok (phys_len g) r2
+    | Panic, Panic | Fail, Fail => True
+    | _, _ => False
+    end.
+
+  Lemma col_ftype_sim c1 c2 : col_type c1 = col_type c2 -> col_ftype c1 = col_ftype c2.
+  Proof. intro H. unfold col_ftype. rewrite H. reflexivity. Qed.
+
+  Definition upper_prem (c : coldata) (fn : afn) : Prop :=
+    match c, fn with
+    | ECol _ vs _, FBuiltin nm => bytes_eqb nm name_ToUpper = true -> upper_e_okb ut vs = true
+    | _, _ => True
+    end.
+
+  Lemma col_apply1_sim f g c1 c2 fn :
+    Rel L f g -> act L (ix f) (ix g) -> col_sim L c1 c2 -> col_ok (phys_len f) c1 -> col_ok (phys_len g) c2 ->
+    afn_wf fn = true -> upper_prem c1 fn -> upper_prem c2 fn ->
+    col_out f g (col_apply1 ut c1 fn (ix f)) (col_apply1 ut c2 fn (ix g)).
+  Proof.
+    intros HR Ha [Ht Hc] Ho1 Ho2 Hfn Hp1 Hp2. pose proof Ha as [Hlen [Hincl _]].
+    destruct fn as [ty vals|k|src|tin tout tbl|ty tbl|nm|]; try exact I.
+    - (* func(T) U *)
+      unfold col_apply1. rewrite <- (col_ftype_sim c1 c2 Ht).
+      destruct (ctype_eqb (col_ftype c1) tin && negb (ctype_eqb tout TEnum)) eqn:Esig; [|exact I].
+      apply andb_true_iff in Esig as [_ Hte]. apply negb_true_iff in Hte. apply ctype_neq_eqb in Hte.
+      rewrite (cells_sim_bind2 L c1 c2 (tbl1 tbl) (ix f) (ix g) Hc Hlen Hincl).
+      destruct (omap _ (ix g)) as [vals| |] eqn:Ev; cbn [obind]; try exact I.
+      assert (Hty : Forall (fun y => cell_type_ok tout y = true) vals).
+      { apply (omap_Forall _ _ _ _ Ev). intros p b _ Hb. destruct (cell_at c2 p) as [x| |]; simpl in Hb; try discriminate.
+        apply (tbl1_typed tout tbl x b Hfn Hb). }
+      destruct Ho1 as [Hl1 Hw1]. destruct Ho2 as [Hl2 Hw2]. rewrite Hl1, Hl2.
+      pose proof (loop_sim L (ix f) (ix g) (phys_len f) (phys_len g) H121 Ha (r_rng _ _ _ HR) tout (zero_cell tout) vals
+                    Hte (zero_cell_ok tout Hte) Hty) as Hloop.
+      destruct (do cells <- scatter _ (ix f) vals; col_of_cells tout cells) as [r1| |],
+               (do cells <- scatter _ (ix g) vals; col_of_cells tout cells) as [r2| |]; try contradiction; try exact I.
+      destruct Hloop as [H1 [H2 [H3 _]]]. repeat split; try apply H1; try apply H2; try apply H3.
+    - (* built in function name *)
+      destruct c1 as [d1|d1|d1|d1|d1 v1 s1], c2 as [d2|d2|d2|d2|d2 v2 s2]; try discriminate Ht; try exact I.
+      + cbn [col_apply1]. destruct (assocb nm GenTables.t_s_apply); [|exact I].
+        destruct (bytes_eqb nm name_ToUpper); [|exact I].
+        apply (s_upper_sim f g d1 d2 HR Ha Ho1 Ho2 Hc).
+      + cbn [col_apply1]. destruct (assocb nm GenTables.t_e_apply); [|exact I].
+        cbn [upper_prem] in Hp1, Hp2. destruct (bytes_eqb nm name_ToUpper) eqn:En; [|exact I].
+        pose proof (e_upper_sim f g d1 v1 s1 d2 v2 s2 Ho1 Ho2 Hc (Hp1 eq_refl) (Hp2 eq_refl)) as H.
+        unfold col_out. destruct (e_to_upper ut d1 v1), (e_to_upper ut d2 v2); try contradiction. exact H.
+  Qed.
+
+  Lemma col_apply2_sim f g c1 c2 e1 e2 fn :
+    Rel L f g -> act L (ix f) (ix g) -> col_sim L c1 c2 -> col_sim L e1 e2 ->
+    col_ok (phys_len f) c1 -> col_ok (phys_len g) c2 -> afn_wf fn = true ->
+    col_out f g (col_apply2 c1 e1 fn (ix f)) (col_apply2 c2 e2 fn (ix g)).
+  Proof.
+    intros HR Ha [Ht Hc] [Hte He] Ho1 Ho2 Hfn. pose proof Ha as [Hlen [Hincl _]].
+    unfold col_apply2. rewrite <- Ht, <- Hte.
+    destruct (negb (ctype_eqb (col_type c1) (col_type e1))); [exact I|].
+    destruct fn as [ty vals|k|src|tin tout tbl|ty tbl|nm|]; try exact I.
+    rewrite <- (col_ftype_sim c1 c2 Ht).
+    destruct (ctype_eqb (col_ftype c1) ty) eqn:Ety; [|exact I].
+    assert (Hne : ty <> TEnum) by (apply (OpsProofs2.col_ftype_not_enum c1 ty Ety)).
+    assert (Hvals : omap (fun p => do x <- cell_at c1 p; do y <- cell_at e1 p; tbl2 tbl x y) (ix f)
+                    = omap (fun p => do x <- cell_at c2 p; do y <- cell_at e2 p; tbl2 tbl x y) (ix g)).
+    { apply omap_sim; [exact Hlen|]. intros p q Hpq.
+      destruct (Hc p q (Hincl _ Hpq)) as [x [X1 X2]]. destruct (He p q (Hincl _ Hpq)) as [y [Y1 Y2]].
+      rewrite X1, X2, Y1, Y2. reflexivity. }
+    rewrite Hvals. destruct (omap _ (ix g)) as [vals| |] eqn:Ev; cbn [obind]; try exact I.
+    assert (Hty : Forall (fun y => cell_type_ok ty y = true) vals).
+    { apply (omap_Forall _ _ _ _ Ev). intros p b _ Hb. destruct (cell_at c2 p) as [x| |]; simpl in Hb; try discriminate.
+      destruct (cell_at e2 p) as [y| |]; simpl in Hb; try discriminate.
+      apply (tbl2_typed ty tbl x y b Hfn Hb). }
+    destruct Ho1 as [Hl1 Hw1]. destruct Ho2 as [Hl2 Hw2]. rewrite Hl1, Hl2.
+    pose proof (loop_sim L (ix f) (ix g) (phys_len f) (phys_len g) H121 Ha (r_rng _ _ _ HR) ty (zero_cell ty) vals
+                  Hne (zero_cell_ok ty Hne) Hty) as Hloop.
+    destruct (do cells <- scatter _ (ix f) vals; col_of_cells ty cells) as [r1| |],
+             (do cells <- scatter _ (ix g) vals; col_of_cells ty cells) as [r2| |]; try contradiction; try exact I.
+    destruct Hloop as [H1 [H2 [H3 _]]]. repeat split; try apply H1; try apply H2; try apply H3.
+  Qed.
+
+  Lemma Rel_lookup_ok f g name c1 c2 :
+    Rel L f g -> lookup_col f name = Some c1 -> lookup_col g name = Some c2 ->
+    col_sim L c1 c2 /\ col_ok (phys_len f) c1 /\ col_ok (phys_len g) c2.
+  Proof.
+    intros HR H1 H2. pose proof (lookup_col_sim L f g name (r_cols _ _ _ HR)) as Hs. rewrite H1, H2 in Hs.
+    split; [exact Hs|]. split; [apply (WF_lookup f name c1 (r_wf1 _ _ _ HR) H1)|apply (WF_lookup g name c2 (r_wf2 _ _ _ HR) H2)].
+  Qed.
+
+  Lemma copy_sim f g dst src : Rel L f g -> sim_out L f g (Ok (copy f dst src)) (Ok (copy g dst src)).
+  Proof.
+    intro HR. unfold copy. rewrite <- (r_err _ _ _ HR). destruct (ferr f); [apply sim_out_self; exact HR|].
+    pose proof (lookup_col_sim L f g src (r_cols _ _ _ HR)) as Hs.
+    destruct (lookup_col f src) as [c1|] eqn:E1, (lookup_col g src) as [c2|] eqn:E2; try contradiction;
+      [|apply sim_out_err; exact HR].
+    destruct (bytes_eqb dst src); [apply sim_out_self; exact HR|].
+    destruct (Rel_lookup_ok f g src c1 c2 HR E1 E2) as [K1 [K2 K3]].
+    apply (sim_out_set L f g dst (Ok c1) (Ok c2) HR). auto.
+  Qed.
+
+  (* one instruction of Apply, on two frames related by L, over paired row indexes *)
+  Theorem apply_instr_sim f g i :
+    Rel L f g -> act L (ix f) (ix g) -> afn_wf (ifn i) = true ->
+    enum_upper_okb ut f i = true -> enum_upper_okb ut g i = true ->
+    sim_out L f g (apply_instr ut f i) (apply_instr ut g i).
+  Proof.
+    intros HR Ha Hfn Hu1 Hu2. pose proof (r_err _ _ _ HR) as Herr.
+    unfold apply_instr. unfold enum_upper_okb in Hu1, Hu2. rewrite <- Herr in Hu2.
+    destruct (empty_name (isrc1 i)); [|destruct (empty_name (isrc2 i))].
+    - (* apply0 *)
+      unfold apply0. rewrite <- Herr. destruct (ferr f); [apply sim_out_self; exact HR|].
+      destruct (ifn i) as [ty vals|k|src|tin tout tbl|ty tbl|nm|]; try (apply sim_out_err; exact HR).
+      + destruct (ctype_eqb ty TEnum) eqn:Ete; [exact I|]. apply ctype_neq_eqb in Ete.
+        simpl in Hfn. apply andb_true_iff in Hfn as [_ Hty]. apply forallb_Forall in Hty.
+        pose proof (loop_sim L (ix f) (ix g) (phys_len f) (phys_len g) H121 Ha (r_rng _ _ _ HR) ty (zero_cell ty) vals
+                      Ete (zero_cell_ok ty Ete) Hty) as Hloop.
+        assert (Hbind : forall (h : frame) n J,
+                  (do cells <- scatter (repeat (zero_cell ty) n) J vals; do c <- col_of_cells ty cells; Ok (set_column h (idst i) c))
+                  = match (do cells <- scatter (repeat (zero_cell ty) n) J vals; col_of_cells ty cells) with
+                    | Ok r => Ok (set_column h (idst i) r) | Fail => Fail | Panic => Panic end).
+        { intros h n J. destruct (scatter (repeat (zero_cell ty) n) J vals) as [a| |]; cbn [obind]; reflexivity. }
+        rewrite !Hbind.
+        destruct (do cells <- scatter _ (ix f) vals; col_of_cells ty cells) as [r1| |],
+                 (do cells <- scatter _ (ix g) vals; col_of_cells ty cells) as [r2| |]; try contradiction; try exact I.
+        apply (sim_out_set L f g (idst i) (Ok r1) (Ok r2) HR). destruct Hloop as [H1 [H2 [H3 _]]]. auto.
+      + destruct k as [z|b|b|s|s]; try exact I;
+          (match goal with |- sim_out _ _ _ (do col <- const_col ?k _; _) _ =>
+             destruct (OpsProofs2.const_col_spec k (phys_len f) ltac:(intros ? ?; discriminate)) as [r1 [E1 [T1 [L1 C1]]]];
+             destruct (OpsProofs2.const_col_spec k (phys_len g) ltac:(intros ? ?; discriminate)) as [r2 [E2 [T2 [L2 C2]]]];
+             rewrite E1, E2; cbn [obind];
+             apply (sim_out_set L f g (idst i) (Ok r1) (Ok r2) HR);
+             (split; [split; [congruence|]|split; split; try assumption; apply col_wf_nonenum; rewrite ?T1, ?T2; discriminate]);
+             intros p q Hpq; destruct (r_rng _ _ _ HR p q Hpq) as [Hp Hq]; exists k; split; [apply C1; exact Hp|apply C2; exact Hq]
+           end).
+      + apply copy_sim. exact HR.
+    - (* apply1 *)
+      unfold apply1. rewrite <- Herr. destruct (ferr f); [apply sim_out_self; exact HR|].
+      pose proof (lookup_col_sim L f g (isrc1 i) (r_cols _ _ _ HR)) as Hs.
+      destruct (lookup_col f (isrc1 i)) as [c1|] eqn:E1, (lookup_col g (isrc1 i)) as [c2|] eqn:E2; try contradiction;
+        [|apply sim_out_err; exact HR].
+      destruct (Rel_lookup_ok f g _ c1 c2 HR E1 E2) as [K1 [K2 K3]].
+      apply (sim_out_set L f g (idst i) _ _ HR).
+      apply (col_apply1_sim f g c1 c2 (ifn i) HR Ha K1 K2 K3 Hfn).
+      * unfold upper_prem. destruct c1; try exact I. destruct (ifn i); try exact I. intro En. rewrite En in Hu1. exact Hu1.
+      * unfold upper_prem. destruct c2; try exact I. destruct (ifn i); try exact I. intro En. rewrite En in Hu2. exact Hu2.
+    - (* apply2 *)
+      unfold apply2. rewrite <- Herr. destruct (ferr f); [apply sim_out_self; exact HR|].
+      pose proof (lookup_col_sim L f g (isrc1 i) (r_cols _ _ _ HR)) as Hs1.
+      pose proof (lookup_col_sim L f g (isrc2 i) (r_cols _ _ _ HR)) as Hs2.
+      destruct (lookup_col f (isrc1 i)) as [c1|] eqn:E1, (lookup_col g (isrc1 i)) as [c2|] eqn:E2; try contradiction;
+        [|apply sim_out_err; exact HR].
+      destruct (lookup_col f (isrc2 i)) as [e1|] eqn:E3, (lookup_col g (isrc2 i)) as [e2|] eqn:E4; try contradiction;
+        [|apply sim_out_err; exact HR].
+      destruct (Rel_lookup_ok f g _ c1 c2 HR E1 E2) as [K1 [K2 K3]].
+      apply (sim_out_set L f g (idst i) _ _ HR).
+      apply (col_apply2_sim f g c1 c2 e1 e2 (ifn i) HR Ha K1 Hs2 K2 K3 Hfn).
   Qed.
 End Instr.
